@@ -510,3 +510,95 @@ def value_at(func, target, env):
                     return ev(target), True
         return None, False
     return run(func.body)[0]
+
+
+def reached_under(func, node, env):
+    """Is `node` (inside `func`) on the path taken when the parameters in
+    `env` have the given constant values?  False when an enclosing `if`
+    whose test is decided by `env` excludes it, True otherwise (tests not
+    decided by `env` are taken either way).  None when a name of `env` is
+    re-bound in the function (not decidable this simply)."""
+    for a in ast.walk(func):
+        if isinstance(a, ast.Name) and isinstance(a.ctx, ast.Store) and \
+                a.id in env:
+            return None
+    par = {}
+    for p in ast.walk(func):
+        for c in ast.iter_child_nodes(p):
+            par[id(c)] = p
+
+    def ev(e):
+        if isinstance(e, ast.Constant):
+            return e.value
+        if isinstance(e, ast.Name) and e.id in env:
+            return env[e.id]
+        return _NOVAL
+
+    def truth(t):
+        if isinstance(t, ast.UnaryOp) and isinstance(t.op, ast.Not):
+            r = truth(t.operand)
+            return None if r is None else not r
+        if isinstance(t, ast.BoolOp):
+            rs = [truth(v) for v in t.values]
+            if isinstance(t.op, ast.And):
+                if any(r is False for r in rs):
+                    return False
+                return True if all(r is True for r in rs) else None
+            if any(r is True for r in rs):
+                return True
+            return False if all(r is False for r in rs) else None
+        if isinstance(t, ast.Compare) and len(t.ops) == 1:
+            l = ev(t.left)
+            c = t.comparators[0]
+            if isinstance(c, (ast.Tuple, ast.List, ast.Set)):
+                vals = [ev(x) for x in c.elts]
+                r = _NOVAL if any(v is _NOVAL for v in vals) else vals
+            else:
+                r = ev(c)
+            if l is _NOVAL or r is _NOVAL:
+                return None
+            op = t.ops[0]
+            try:
+                if isinstance(op, (ast.Eq, ast.Is)):
+                    return l == r
+                if isinstance(op, (ast.NotEq, ast.IsNot)):
+                    return l != r
+                if isinstance(op, ast.In):
+                    return l in r
+                if isinstance(op, ast.NotIn):
+                    return l not in r
+            except Exception:
+                return None
+        return None
+    cur = node
+    while id(cur) in par:
+        p = par[id(cur)]
+        if isinstance(p, ast.If) and cur is not p.test:
+            t = truth(p.test)
+            in_body = any(cur is s_ for s_ in p.body)
+            if t is not None and t != in_body:
+                return False
+        if isinstance(p, ast.IfExp) and cur is not p.test:
+            t = truth(p.test)
+            if t is not None and t != (cur is p.body):
+                return False
+        # an earlier sibling `if <decided true>: ... return/raise` ends the
+        # path before this statement
+        for fld in ('body', 'orelse', 'finalbody'):
+            blk = getattr(p, fld, None)
+            if isinstance(blk, list) and any(cur is s_ for s_ in blk):
+                for s_ in blk:
+                    if s_ is cur:
+                        break
+                    if isinstance(s_, ast.If) and truth(s_.test) is True \
+                            and s_.body and isinstance(
+                            s_.body[-1], (ast.Return, ast.Raise,
+                                          ast.Continue, ast.Break)):
+                        return False
+        if p is func:
+            break
+        cur = p
+    return True
+
+
+_NOVAL = object()
